@@ -15,12 +15,17 @@ Generators (kept as plain functions `gen_*(rng)` so they can be folded into the 
   gen_tokens     random concatenations of the tokens the two grammars care about
   exhaustive     every string up to a length over a small alphabet (--exhaustive)
 Ops checked: pep_parse, pep_str (one per string), pep_cmp (one per pair).
+Extra checks on every PEP 440-valid string: the model's pep_str output matches the canonical
+regex of PEP 440 appendix B (plus a normalised local segment) and is a fixpoint of the real
+str(parse(.)); with --packaging the modern `packaging` library (no LegacyVersion) is used as a
+second oracle for validity, str and order of valid strings.
 Exit status 1 when there is any disagreement.
 """
 import argparse
 import itertools
 import json
 import random
+import re
 import subprocess
 import sys
 
@@ -28,6 +33,17 @@ sys.path.insert(0, '/repo/src')
 from bumpver import setuptools_v65_version as sv  # noqa: E402
 
 DRIVER = '/verif/lean/.lake/build/bin/driver'
+
+# PEP 440, appendix B "is_canonical", extended by a normalised local version label
+NUM = r'(0|[1-9][0-9]*)'
+CANONICAL_RE = re.compile(
+    r'^([1-9][0-9]*!)?' + NUM + r'(\.' + NUM + r')*((a|b|rc)' + NUM + r')?(\.post' + NUM + r')?(\.dev' + NUM + r')?'
+    r'(\+(' + NUM + r'|[a-z0-9]*[a-z][a-z0-9]*)(\.(' + NUM + r'|[a-z0-9]*[a-z][a-z0-9]*))*)?$')
+
+try:
+    import packaging.version as pv
+except Exception:  # pragma: no cover
+    pv = None
 
 WS = [' ', '\t', '\n', '\r', '\x0b', '\x0c', '\x1c', '\x1d', '\x1e', '\x1f']
 SEPS = ['-', '_', '.']
@@ -270,7 +286,7 @@ def run_driver(reqs):
     return [json.loads(l) for l in lines]
 
 
-def check(strings, pairs, show):
+def check(strings, pairs, show, use_packaging=False):
     reqs = []
     for s in strings:
         reqs.append({'op': 'pep_parse', 's': s})
@@ -278,7 +294,7 @@ def check(strings, pairs, show):
     for a, b in pairs:
         reqs.append({'op': 'pep_cmp', 'a': a, 'b': b})
     resp = run_driver(reqs)
-    bad = {'pep_parse': 0, 'pep_str': 0, 'pep_cmp': 0}
+    bad = {'pep_parse': 0, 'pep_str': 0, 'pep_cmp': 0, 'canonical': 0, 'packaging': 0}
     unsupported = 0
     shown = 0
     stats = {'pep': 0, 'legacy': 0, 'lt': 0, 'eq': 0, 'gt': 0}
@@ -301,6 +317,36 @@ def check(strings, pairs, show):
                 shown += 1
                 print('DISAGREE %s %r\n   model: %s\n   real : %s' % (
                     op, {k: v for k, v in rq.items() if k != 'op'}, json.dumps(rs), json.dumps(want)))
+        if op == 'pep_str' and isinstance(sv.parse(rq['s']), sv.Version):
+            out = rs.get('ok', '')
+            if not CANONICAL_RE.match(out) or str(sv.parse(out)) != out:
+                bad['canonical'] += 1
+                if shown < show:
+                    shown += 1
+                    print('NOT CANONICAL %r -> %r' % (rq['s'], out))
+        if use_packaging and pv is not None:
+            msg = None
+            if op == 'pep_str':
+                try:
+                    q = pv.Version(rq['s'])
+                    if not isinstance(sv.parse(rq['s']), sv.Version) or str(q) != rs.get('ok'):
+                        msg = 'packaging accepts / prints %r' % str(q)
+                except pv.InvalidVersion:
+                    if isinstance(sv.parse(rq['s']), sv.Version):
+                        msg = 'packaging rejects'
+            elif op == 'pep_cmp':
+                try:
+                    qa, qb = pv.Version(rq['a']), pv.Version(rq['b'])
+                    got = 'lt' if qa < qb else ('eq' if qa == qb else 'gt')
+                    if got != rs.get('ok'):
+                        msg = 'packaging says %s' % got
+                except pv.InvalidVersion:
+                    pass
+            if msg:
+                bad['packaging'] += 1
+                if shown < show:
+                    shown += 1
+                    print('PACKAGING %s %r: %s (model %s)' % (op, {k: v for k, v in rq.items() if k != 'op'}, msg, json.dumps(rs)))
     return bad, unsupported, stats
 
 
@@ -318,18 +364,20 @@ def main():
     ap.add_argument('--exhaustive', type=int, default=0,
                     help='also check every string up to this length over small alphabets')
     ap.add_argument('--show', type=int, default=20)
+    ap.add_argument('--packaging', action='store_true', help='second oracle: the modern packaging library')
     a = ap.parse_args()
     rng = random.Random(a.seed)
 
     strings = [gen_string(rng) for _ in range(a.strings)]
     pool = strings[:]
     pairs = [gen_pair(rng, pool) for _ in range(a.pairs)]
-    bad, unsup, stats = check(strings, pairs, a.show)
+    bad, unsup, stats = check(strings, pairs, a.show, a.packaging)
     total_bad = sum(bad.values())
     print('seed %d: %d strings (%d distinct; %d pep, %d legacy), %d pairs (lt %d, eq %d, gt %d); '
-          'unsupported answers %d; disagreements: parse %d, str %d, cmp %d' % (
+          'unsupported answers %d; disagreements: parse %d, str %d, cmp %d; not canonical %d%s' % (
               a.seed, len(strings), len(set(strings)), stats['pep'], stats['legacy'], len(pairs),
-              stats['lt'], stats['eq'], stats['gt'], unsup, bad['pep_parse'], bad['pep_str'], bad['pep_cmp']))
+              stats['lt'], stats['eq'], stats['gt'], unsup, bad['pep_parse'], bad['pep_str'], bad['pep_cmp'],
+              bad['canonical'], ('; packaging disagreements %d' % bad['packaging']) if a.packaging else ''))
 
     if a.exhaustive:
         for name, alpha, n in [
